@@ -12,7 +12,9 @@ Python                                                 Lean
 `d[name, 0] = aggregate(keys)`                         `treeReduce`
 `Reduction.chunk/combine/aggregate` = the pandas       `kernelReduce kernel` (chunk = combine = aggregate = kernel
    method on the partition / on the concatenated          on the concatenation of the partial results)
-   partial results
+   partial results (`Sum`, `Prod`)
+`Max.chunk/combine` (+ inherited aggregate): one-      `mmChunk` / `mmCombine` / `mmAgg`, `daskMinMax`
+   element partial results, NONE for an empty partition
 `Count` (chunk `count`, aggregate `sum`), `Mean` =     `daskCount`, `daskMean`
    `Sum / Count`
 a numeric cell / NaN                                   `Cell = Option Int`
@@ -63,8 +65,8 @@ def treeReduce (se : Option Nat) (combine : List β → β) (aggregate : List β
   | some k => (treeLoop combine k (keys.length + 1) keys).map aggregate
 
 /-- `ApplyConcatApply._lower` → `TreeReduce(Chunk(frame))` on a partitioned column -/
-def aca (se : Option Nat) (chunk : List Cell → β) (combine : List β → β) (aggregate : List β → γ)
-    (parts : List (List Cell)) : Option γ :=
+def aca {ρ : Type} (se : Option Nat) (chunk : List ρ → β) (combine : List β → β) (aggregate : List β → γ)
+    (parts : List (List ρ)) : Option γ :=
   treeReduce se combine aggregate (parts.map chunk)
 
 /-! ## pandas kernels on one column block -/
@@ -96,10 +98,21 @@ def countK (p : List Cell) : Nat := (valid p).length
 
 /-! ## dask reductions on a partitioned column -/
 
-/-- `Sum/Prod/Max/Min`: `reduction_chunk` is the pandas method; `combine`/`aggregate` apply the same
-    method to the concatenated partial results -/
+/-- `Sum/Prod`: `reduction_chunk` is the pandas method; `combine`/`aggregate` apply the same
+    method to the concatenated partial results (`Max/Min`: see `daskMinMax`) -/
 def kernelReduce (se : Option Nat) (kernel : List Cell → Cell) (parts : List (List Cell)) : Option Cell :=
   aca se kernel kernel kernel parts
+
+/-- `Max.chunk` / `Min.chunk` on a Series partition (after fix 20e3626): an EMPTY partition contributes no element,
+    any other the one-element partial result -/
+def mmChunk (kernel : List Cell → Cell) (p : List Cell) : List Cell := if p.isEmpty then [] else [kernel p]
+/-- `Max.combine`: the concatenated partial results reduce to one element, or stay empty -/
+def mmCombine (kernel : List Cell → Cell) (bs : List (List Cell)) : List Cell :=
+  if bs.flatten.isEmpty then [] else [kernel bs.flatten]
+/-- `Reduction.aggregate` for `Max`/`Min`: the pandas method on the concatenated partial results -/
+def mmAgg (kernel : List Cell → Cell) (bs : List (List Cell)) : Cell := kernel bs.flatten
+def daskMinMax (se : Option Nat) (kernel : List Cell → Cell) (parts : List (List Cell)) : Option Cell :=
+  aca se (mmChunk kernel) (mmCombine kernel) (mmAgg kernel) parts
 
 /-- `Count`: chunk `count`, combine/aggregate `sum` -/
 def daskCount (se : Option Nat) (parts : List (List Cell)) : Option Nat :=
@@ -110,5 +123,102 @@ def daskMean (se : Option Nat) (skipna : Bool) (parts : List (List Cell)) : Opti
   match kernelReduce se (sumK skipna) parts, daskCount se parts with
   | some s, some c => some (s, c)
   | _, _ => none
+
+/-! ## reductions whose partial results are not scalars (review round)
+
+Python                                                    Lean
+------                                                    ----
+`Any` / `All` (`reduction_chunk = M.any / M.all`,         `anyK` / `allK` on a block of booleans, `kernelReduceB`
+   combine = aggregate = the same method on the partials)
+`idxmaxmin_chunk` (Series, skipna=True: an empty or       `idxChunk better` — no row, or one row `(idx, value)`
+   all-NA partition contributes an EMPTY frame)
+`idxmaxmin_combine` (`len(x) <= 1` → `x`, else one row    `idxCombine better`
+   per group: `idxmax` of the values = FIRST best row)
+`idxmaxmin_agg(scalar=True)` (`res[0]`; ValueError on     `idxAgg better` (`none` = ValueError
+   an empty result)                                           "attempt to get argmax of an empty sequence")
+`Series.idxmax()` of pandas (ValueError on empty/all-NA)  `idxK better`
+`M.value_counts(dropna)` on one partition                 `vcChunk dropna`   (association list value ↦ count)
+`methods.value_counts_combine` (`groupby(level=0,         `vcCombine dropna`
+   dropna=dropna).sum()` of the concatenated partials)
+`methods.value_counts_aggregate` before sorting           `vcCombine dropna` again (order/normalize are presentation)
+`M.nlargest(n)` on a Series (values only)                 `topK n` (`mergeSort` descending, `take n`)
+-/
+
+/-- `Series.any()` / `Series.all()` on one block of booleans -/
+def anyK (p : List Bool) : Bool := p.any id
+def allK (p : List Bool) : Bool := p.all id
+
+/-- `Any` / `All`: chunk = combine = aggregate = the pandas method -/
+def kernelReduceB (se : Option Nat) (kernel : List Bool → Bool) (parts : List (List Bool)) : Option Bool :=
+  aca se kernel kernel kernel parts
+
+/-- a row of an indexed series: (index label, value) -/
+abbrev LRow := Int × Cell
+
+/-- rows with a valid value, as (label, value) -/
+def validRows (p : List LRow) : List (Int × Int) := p.filterMap (fun r => r.2.map (fun v => (r.1, v)))
+
+/-- FIRST best row (`idxmax`/`idxmin` return the first occurrence): `better a b` = value `a` is strictly better than `b` -/
+def argBest (better : Int → Int → Bool) : List (Int × Int) → Option (Int × Int)
+  | [] => none
+  | x :: xs =>
+    match argBest better xs with
+    | none => some x
+    | some y => if better y.2 x.2 then some y else some x
+
+def gtB (a b : Int) : Bool := decide (b < a)
+def ltB (a b : Int) : Bool := decide (a < b)
+
+/-- `idxmaxmin_chunk(x, fn, skipna=True)` for a Series partition: rows of the frame `{"idx": …, "value": …}` -/
+def idxChunk (better : Int → Int → Bool) (p : List LRow) : List (Int × Int) := (argBest better (validRows p)).toList
+
+/-- `idxmaxmin_combine` on the concatenated partial frames (one group: the Series case) -/
+def idxCombine (better : Int → Int → Bool) (bs : List (List (Int × Int))) : List (Int × Int) :=
+  let x := bs.flatten
+  if x.length ≤ 1 then x else (argBest better x).toList
+
+/-- `idxmaxmin_agg(…, scalar=True)`: `none` = ValueError("attempt to get argmax of an empty sequence") -/
+def idxAgg (better : Int → Int → Bool) (bs : List (List (Int × Int))) : Option Int :=
+  ((idxCombine better bs).head?).map (·.1)
+
+/-- `Series.idxmax()/idxmin()` (skipna=True) as dask lowers it; inner `none` = ValueError -/
+def daskIdx (se : Option Nat) (better : Int → Int → Bool) (parts : List (List LRow)) : Option (Option Int) :=
+  aca se (idxChunk better) (idxCombine better) (idxAgg better) parts
+
+/-- pandas `Series.idxmax()/idxmin()` (skipna=True); `none` = ValueError (empty / all-NA) -/
+def idxK (better : Int → Int → Bool) (p : List LRow) : Option Int := (argBest better (validRows p)).map (·.1)
+
+/-- add `n` to the count of key `k` -/
+def vcAdd (k : Cell) (n : Nat) : List (Cell × Nat) → List (Cell × Nat)
+  | [] => [(k, n)]
+  | (k', m) :: rest => if k' == k then (k', m + n) :: rest else (k', m) :: vcAdd k n rest
+
+def vcOfPairs (dropna : Bool) (kv : List (Cell × Nat)) : List (Cell × Nat) :=
+  (kv.filter (fun e => !dropna || e.1.isSome)).foldl (fun acc e => vcAdd e.1 e.2 acc) []
+
+/-- `Series.value_counts(dropna=…)` on one partition, as an association list value ↦ count -/
+def vcChunk (dropna : Bool) (p : List Cell) : List (Cell × Nat) := vcOfPairs dropna (p.map (fun c => (c, 1)))
+
+/-- `value_counts_combine`: `groupby(level=0, dropna=dropna).sum()` of the concatenated partial counts -/
+def vcCombine (dropna : Bool) (bs : List (List (Cell × Nat))) : List (Cell × Nat) := vcOfPairs dropna bs.flatten
+
+/-- the count reported for a key (0 when the key is absent) -/
+def vcLookup (t : List (Cell × Nat)) (k : Cell) : Nat := ((t.find? (fun e => e.1 == k)).map (·.2)).getD 0
+
+/-- `Series.value_counts(dropna)` as dask lowers it (`split_out=1`), before sorting / normalising -/
+def daskValueCounts (se : Option Nat) (dropna : Bool) (parts : List (List Cell)) : Option (List (Cell × Nat)) :=
+  aca se (vcChunk dropna) (vcCombine dropna) (vcCombine dropna) parts
+
+/-- number of occurrences of a key in a block (pandas `value_counts` semantics) -/
+def countKey (dropna : Bool) (p : List Cell) (k : Cell) : Nat :=
+  if dropna && k.isNone then 0 else p.count k
+
+/-- `Series.nlargest(n)` / `nsmallest(n)` values: sort (descending for `ge`) and keep `n` -/
+def topK (le : Int → Int → Bool) (n : Nat) (vals : List Int) : List Int := (vals.mergeSort le).take n
+
+/-- `NLargest` / `NSmallest` on a partitioned column of valid values: chunk, combine and aggregate are all
+    `nlargest(n)` (of the partition / of the concatenated partial results) -/
+def daskTopK (se : Option Nat) (le : Int → Int → Bool) (n : Nat) (parts : List (List Int)) : Option (List Int) :=
+  aca se (topK le n) (fun bs => topK le n bs.flatten) (fun bs => topK le n bs.flatten) parts
 
 end Dask.TreeReduce
